@@ -358,10 +358,12 @@ pub fn shim_btreemap_keys_copied_collect<K: Ord + Copy, V>(m: &BTreeMap<K, V>) -
 {
     m.keys().copied().collect()
 }
-/// N2 shim for `ITER.into_iter().collect()` into a Vec from a caller-chosen IntoIterator (content unspecified: the
-/// caller's iterator is arbitrary code)
+/// N2 shim for `ITER.into_iter().collect()` into a Vec from a caller-chosen IntoIterator, also used as N4 shim for
+/// `for X in ITER` over such an iterator (nothing is known about an arbitrary iterator, not even that it terminates: the loop
+/// is run over the collected items).  The items are vstd's `into_iter_remaining(ITER)`: what the iterator will yield.
 #[verifier::external_body]
 pub fn shim_intoiter_collect_vec<I: IntoIterator>(it: I) -> (r: Vec<I::Item>)
+    ensures r@ == vstd::std_specs::iter::into_iter_remaining(it),
 {
     it.into_iter().collect()
 }
